@@ -103,3 +103,41 @@ def enumGoTypeName (cfg : CasingCfg) (gqlTypeName : Name) : Name :=
   applyCasing gqlTypeName cfg.getDefault true
 
 end Genq.Names
+
+namespace Genq.Names
+
+/-! ### several enums: the generator-wide table of constant names (repair of F-16) -/
+
+structure EnumDecl where
+  goTypeName : Name
+  gqlTypeName : Name
+  values : List Name
+deriving DecidableEq, Repr
+
+inductive EnumsRes
+  | ok (consts : List (List EnumConst))                -- per enum, in conversion order
+  | conflict (k : Nat) (val other goName : Name)       -- enum #k: two of its own values collide
+  | crossConflict (k : Nat) (val goName : Name)        -- enum #k: a value collides with a constant of an earlier enum
+deriving DecidableEq, Repr
+
+/-- the loop of the `ast.Enum` case with the generator-wide table `taken` (names of the constants
+    of the enums converted before): own conflicts are tested first, as in the code -/
+def convertEnumAuxG (nameOf : Name → Name) (taken : List Name) (k : Nat) : List Name → List EnumConst → Except EnumsRes (List EnumConst)
+  | [], seen => .ok seen.reverse
+  | v :: vs, seen =>
+    match seen.find? (fun c => c.goName == nameOf v) with
+    | some c => .error (.conflict k v c.gqlName (nameOf v))
+    | none =>
+      if taken.contains (nameOf v) then .error (.crossConflict k v (nameOf v))
+      else convertEnumAuxG nameOf taken k vs (⟨nameOf v, v⟩ :: seen)
+
+def convertEnumsAux (cfg : CasingCfg) : List EnumDecl → Nat → List Name → List (List EnumConst) → EnumsRes
+  | [], _, _, acc => .ok acc.reverse
+  | d :: ds, k, taken, acc =>
+    match convertEnumAuxG (enumValueName (cfg.forEnum d.gqlTypeName) d.goTypeName) taken k d.values [] with
+    | .error e => e
+    | .ok cs => convertEnumsAux cfg ds (k + 1) (taken ++ cs.map (·.goName)) (cs :: acc)
+
+def convertEnums (cfg : CasingCfg) (ds : List EnumDecl) : EnumsRes := convertEnumsAux cfg ds 0 [] []
+
+end Genq.Names
